@@ -607,6 +607,12 @@ def rule_frag_contig(ctx, cfg, F):
                     if e[0] == "var":
                         E_locals.add(e[1])
                     R.ok("in-loop first fragment sends data[..E]", f.loc(b), cfg)
+                elif de[0] == "call" and de[1].endswith("index") and de[2][0] == ("param", data_param) and de[2][1][0] == "agg" and de[2][1][1].endswith("Range::Range") and de[2][1][2][0] == ("var", P):
+                    # one slice expression data[P..E] for both kinds of fragment: under the guard P == 0 (checked next) it is data[..E]
+                    e = de[2][1][2][1]
+                    if e[0] == "var":
+                        E_locals.add(e[1])
+                    R.ok("in-loop first fragment sends data[P..E] (with P == 0)", f.loc(b), cfg)
                 else:
                     R.violate("%s:first-fragment-slice" % f.path, "the in-loop first fragment does not send data[..E] (%s)" % expr_str(de)[:80], f.path, f.loc(b), config=cfg)
                 # guarded by P == 0
@@ -1355,67 +1361,70 @@ def rule_shm_len(ctx, cfg, F):
 
 
 def rule_shm_sibling(ctx, cfg, F):
-    R = ctx.rule("SHM-SIBLING", "create_shmem (whichever variant this configuration compiles) calls ftruncate(fd, length) with the descriptor it created and its length parameter, and returns that descriptor")
-    f = F.fns.get("platform::unix::create_shmem")
-    if not f:
-        R.violate("anchor-missing:create_shmem", "create_shmem not found", config=cfg)
+    R = ctx.rule("SHM-SIBLING", "the function that creates the backing object (shm_open or memfd_create, whichever this configuration compiles) -- or the one that called it for the descriptor -- "
+                 "truncates that very descriptor to its own length parameter on every path, and every function between it and BackingStore::new passes its length parameter on unchanged: "
+                 "the file has exactly the region's length (the receiver maps what fstat reports)")
+    CREATE = ("libc::shm_open", "platform::unix::memfd_create", "libc::memfd_create")
+    creators = [f for f in sorted(F.fns.values(), key=lambda x: x.path) if f.path.startswith("platform::unix") and strip_generics(f.path) not in CREATE
+                and any(strip_generics(callee_name(t)) in CREATE for _, t in f.calls())]
+    R.count("create_shmem[%s]" % cfg, len(creators))
+    if not creators:
+        R.violate("anchor-missing:create_shmem", "no function creates a shared-memory object", config=cfg)
         return
-    tr = Tracer(f)
-    fts = list(f.calls_to("libc::ftruncate"))
-    R.count("create_shmem[%s]" % cfg)
-    if len(fts) == 0:
-        # the sizing moved to whoever creates the store: there the descriptor create_shmem returned is truncated to the caller's own length parameter, on every path
-        n = 0
-        for g in sorted(F.fns.values(), key=lambda x: x.path):
-            for cb, ct in g.calls():
-                if strip_generics(callee_name(ct)) != "platform::unix::create_shmem":
-                    continue
-                n += 1
-                trg, exg = Tracer(g), Expr(g)
+    n_store = 0
+    for f in creators:
+        tr, ex = Tracer(f), Expr(f)
+        cblocks = {b for b, t in f.calls() if strip_generics(callee_name(t)) in CREATE}
+        fts = [(b, t) for b, t in f.calls_to("libc::ftruncate") if any(r.kind == "call" and r.block in cblocks for r in tr.roots_of_operand(t["args"][0]))]
+        sized_here = False
+        if len(fts) == 1:
+            b, t = fts[0]
+            le = expr_strip_blocks(ex.of_operand(t["args"][1]))
+            ok_len = le[0] == "param" and f.local_ty(le[1]) == "usize"
+            dominated = f.all_paths_pass(0, [b])[0]
+            if ok_len and dominated:
+                sized_here = True
+                R.ok("%s: ftruncate(created fd, its length parameter) on every path" % f.path, f.loc(b), cfg)
+            else:
+                R.violate("%s:shape" % strip_generics(f.path), "%s: ftruncate on the created descriptor with the length parameter: %s, on every path: %s" % (f.path, ok_len, dominated), f.path, f.loc(b), config=cfg)
+                continue
+        elif len(fts) > 1:
+            R.violate("%s:ftruncate-count" % strip_generics(f.path), "%d ftruncate calls on the created descriptor" % len(fts), f.path, f.loc(0), config=cfg)
+            continue
+        # walk up to BackingStore::new: each caller sizes the descriptor it got (if the creator did not) and passes its own length parameter down
+        cur, hops = f, 0
+        while not strip_generics(cur.path).endswith("BackingStore::new") and hops < 4:
+            hops += 1
+            callers = [(g, cb, ct) for g in sorted(F.fns.values(), key=lambda x: x.path) for cb, ct in g.calls() if strip_generics(callee_name(ct)) == strip_generics(cur.path)]
+            if len(callers) != 1:
+                R.violate("%s:store-size-not-length" % strip_generics(cur.path), "%s is called from %d places; expected the one store constructor" % (cur.path, len(callers)), cur.path, cur.loc(0), config=cfg)
+                break
+            g, cb, ct = callers[0]
+            n_store += 1
+            trg, exg = Tracer(g), Expr(g)
+            if not sized_here:
                 gts = [(b2, t2) for b2, t2 in g.calls_to("libc::ftruncate") if any(r.kind == "call" and r.block == cb for r in trg.roots_of_operand(t2["args"][0]))]
                 le = expr_strip_blocks(exg.of_operand(gts[0][1]["args"][1])) if len(gts) == 1 else None
                 if len(gts) == 1 and le[0] == "param" and g.local_ty(le[1]) == "usize" and g.all_paths_pass(ct["to"], [gts[0][0]])[0]:
-                    R.ok("%s: ftruncate(created fd, its length parameter) follows create_shmem on every path" % g.path, g.loc(gts[0][0]), cfg)
+                    sized_here = True
+                    R.ok("%s: ftruncate(created fd, its length parameter) follows the creation on every path" % g.path, g.loc(gts[0][0]), cfg)
                 else:
-                    R.violate("%s:store-size-not-length" % strip_generics(g.path), "the descriptor create_shmem returns is not truncated to %s's own length parameter on every path (%d ftruncate sites on it)" % (g.path, len(gts)),
+                    R.violate("%s:store-size-not-length" % strip_generics(g.path), "the descriptor %s returns is not truncated to %s's own length parameter on every path (%d ftruncate sites on it)" % (cur.path, g.path, len(gts)),
                               g.path, g.loc(cb), config=cfg)
-        R.count("store_creations[%s]" % cfg, n)
-        if not n:
-            R.violate("platform::unix::create_shmem:ftruncate-count", "no ftruncate in create_shmem and no caller found", f.path, f.loc(0), config=cfg)
-        return
-    if len(fts) != 1:
-        R.violate("platform::unix::create_shmem:ftruncate-count", "%d ftruncate calls" % len(fts), f.path, f.loc(0), config=cfg)
-        return
-    b, t = fts[0]
-    fdr = tr.roots_of_operand(t["args"][0])
-    lr = tr.roots_of_operand(t["args"][1])
-    ret = tr.roots(0)
-    creators = ("libc::shm_open", "platform::unix::memfd_create", "libc::memfd_create")
-    ok_fd = len(fdr) == 1 and all(r.kind == "call" and r.id in creators for r in fdr)
-    ok_len = len(lr) == 1 and all(r.kind == "param" and r.id == 2 for r in lr)
-    ok_ret = {r.key() for r in ret} == {r.key() for r in fdr}
-    dominated = f.all_paths_pass(0, [b])[0]
-    if ok_fd and ok_len and ok_ret and dominated:
-        R.ok("create_shmem[%s]: ftruncate(created fd, length) on every path, returns that fd" % sorted(r.id for r in fdr)[0], f.loc(b), cfg)
-    else:
-        R.violate("platform::unix::create_shmem:shape", "create_shmem: ftruncate on created fd: %s, with the length parameter: %s, returns it: %s, on every path: %s" % (ok_fd, ok_len, ok_ret, dominated), f.path, f.loc(b), config=cfg)
-    # ... and whoever creates a store passes its own length on unchanged: the receiving side sizes its mapping from the file (fstat), so a file
-    # larger or smaller than the region the creator fills shows up as a region of another length
-    n = 0
-    for g in sorted(F.fns.values(), key=lambda x: x.path):
-        if g is f:
-            continue
-        for b2, t2 in g.calls():
-            if strip_generics(callee_name(t2)) != "platform::unix::create_shmem":
-                continue
-            n += 1
-            e = expr_strip_blocks(Expr(g).of_operand(t2["args"][1]))
-            if e[0] == "param" and g.local_ty(e[1]) == "usize":
-                R.ok("%s sizes the store with its length parameter, unchanged" % g.path, g.loc(b2), cfg)
+                    break
             else:
-                R.violate("%s:store-size-not-length" % strip_generics(g.path), "the store is created with size %s, not with the length the region is created with: the receiver maps what fstat reports" % expr_str(e)[:120],
-                          g.path, g.loc(b2), config=cfg)
-    R.count("store_creations[%s]" % cfg, n)
+                largs = [expr_strip_blocks(exg.of_operand(a)) for a in ct["args"] if a.get("k") in ("cp", "mv") and g.local_ty(a["pl"]["l"]) == "usize"]
+                if largs and all(e[0] == "param" and g.local_ty(e[1]) == "usize" for e in largs):
+                    R.ok("%s sizes the store with its length parameter, unchanged" % g.path, g.loc(cb), cfg)
+                else:
+                    R.violate("%s:store-size-not-length" % strip_generics(g.path), "the store is created with size %s, not with the length the region is created with: the receiver maps what fstat reports" % (
+                        ", ".join(expr_str(e)[:80] for e in largs) or "?"), g.path, g.loc(cb), config=cfg)
+                    break
+            cur = g
+        else:
+            if not sized_here:
+                R.violate("%s:ftruncate-count" % strip_generics(f.path), "the created descriptor is never sized", f.path, f.loc(0), config=cfg)
+    R.count("store_creations[%s]" % cfg, max(n_store, 1 if creators else 0))
 
 
 def rule_shm_unlink(ctx, cfg, F):
@@ -1619,10 +1628,13 @@ def _copy_of(f, l, target):
         flds = [e["f"] for e in src.get("p", []) if isinstance(e, dict) and "f" in e]
         if not src.get("p"):
             l = src["l"]
-        elif len(flds) == 1 and len(src["p"]) == 1:
-            # `x = tuple.j` with `tuple = (.., y, ..)`: the argument tuple of a closure call
-            ds2 = [d for d in f.defs().get(src["l"], []) if d[1] is not None and not f.is_cleanup(d[0])]
-            if len(ds2) == 1 and ds2[0][2]["rv"]["r"] == "agg" and flds[0] < len(ds2[0][2]["rv"]["a"]) and op_place(ds2[0][2]["rv"]["a"][flds[0]]) is not None \
+        elif len(flds) == 1 and all(isinstance(e, dict) and ("f" in e or "v" in e) for e in src["p"]) and len(src["p"]) <= 2:
+            # `x = tuple.j` with `tuple = (.., y, ..)` (the argument tuple of a closure call), or `x = (opt as Some).0` with `opt = Some(y)` (an item handed
+            # from a lowered iterator adaptor to the loop body)
+            vsel = next((e["v"] for e in src["p"] if isinstance(e, dict) and "v" in e), None)
+            ds2 = [d for d in f.defs().get(src["l"], []) if d[1] is not None and not f.is_cleanup(d[0]) and d[2]["rv"]["r"] == "agg" and
+                   (vsel is None or d[2]["rv"]["kind"].get("vi") == vsel)]
+            if len(ds2) == 1 and flds[0] < len(ds2[0][2]["rv"]["a"]) and op_place(ds2[0][2]["rv"]["a"][flds[0]]) is not None \
                     and not ds2[0][2]["rv"]["a"][flds[0]]["pl"].get("p"):
                 l = ds2[0][2]["rv"]["a"][flds[0]]["pl"]["l"]
             else:
